@@ -237,4 +237,524 @@ theorem parse_encodeFile (rows : List (List (List Char))) : parse (encodeFile ro
   simp only [S] at this
   simp [this]
 
+/-! ### field layer -/
+
+def stripBom (h : Str) : Str := h.filter (fun c => c != '﻿')
+
+theorem headerIndex_def (hdr : List Str) (name : Str) : headerIndex hdr name =
+   (List.range (hdr.map stripBom).length).foldl (fun acc i => if (hdr.map stripBom).getD i [] == name then some i else acc) none := rfl
+
+theorem readRow_def (hdr row : List Str) : readRow hdr row =
+  (cellAt hdr row "id".toList).bind fun id =>
+  (cellAt hdr row "name".toList).bind fun name =>
+  (cellAt hdr row "resource".toList).bind fun resource =>
+  (cellAt hdr row "start".toList).bind fun start =>
+  (cellAt hdr row "end".toList).bind fun end_ =>
+  (cellAt hdr row "estimate".toList).bind fun est =>
+  (cellAt hdr row "spent".toList).bind fun spent =>
+  (cellAt hdr row "milestone".toList).bind fun ms =>
+  (cellAt hdr row "parent_id".toList).bind fun pid =>
+  (cellAt hdr row "predecessor_ids".toList).bind fun preds =>
+  ((((hdr.map stripBom).eraseDups.filter (fun c => !defaultFields.contains c))).mapM
+      (fun c => (cellAt hdr row c).map (fun v => (c, nonEmpty v)))).bind fun custom =>
+  some { id := id, name := nonEmpty name, resource := nonEmpty resource, start := nonEmpty start, end_ := nonEmpty end_,
+         estimate := nonEmpty est, spent := nonEmpty spent, milestone := ms == "True".toList, parentId := nonEmpty pid,
+         predIds := if preds.isEmpty then [] else splitOn ';' preds, custom := custom } := rfl
+
+theorem cellAt_def (hdr row : List Str) (name : Str) :
+    cellAt hdr row name = (headerIndex hdr name).bind (fun i => row[i]?) := rfl
+
+/-! #### header lookup -/
+
+theorem headerIndex_aux (clean : List Str) (name : Str) (i : Nat) (hnd : clean.Nodup) (hi : clean[i]? = some name) :
+    ∀ n, n ≤ clean.length →
+      (List.range n).foldl (fun acc k => if clean.getD k [] == name then some k else acc) none =
+        if i < n then some i else none
+  | 0, _ => by simp
+  | n + 1, hn => by
+    have ih := headerIndex_aux clean name i hnd hi n (by omega)
+    rw [List.range_succ, List.foldl_append, ih]
+    simp only [List.foldl_cons, List.foldl_nil]
+    have hil : i < clean.length := (List.getElem?_eq_some_iff.mp hi).1
+    have hie : clean[i] = name := (List.getElem?_eq_some_iff.mp hi).2
+    by_cases hni : n = i
+    · subst hni
+      simp [List.getD_eq_getElem?_getD, hi]
+    · have hne : (clean.getD n [] == name) = false := by
+        have hnl : n < clean.length := by omega
+        simp only [List.getD_eq_getElem?_getD, List.getElem?_eq_getElem hnl, Option.getD_some,
+          beq_eq_false_iff_ne, ne_eq]
+        intro e
+        exact hni ((List.getElem_inj hnd).mp (e.trans hie.symm))
+      rw [hne]
+      by_cases h1 : i < n
+      · simp [h1, Nat.lt_succ_of_lt h1]
+      · have : ¬ i < n + 1 := by omega
+        simp [h1, this]
+
+theorem headerIndex_eq (hdr : List Str) (name : Str) (i : Nat) (hnd : (hdr.map stripBom).Nodup)
+    (hi : (hdr.map stripBom)[i]? = some name) : headerIndex hdr name = some i := by
+  rw [headerIndex_def, headerIndex_aux _ name i hnd hi _ (Nat.le_refl _)]
+  have := (List.getElem?_eq_some_iff.mp hi).1
+  simp only [List.length_map] at this ⊢
+  simp [this]
+
+theorem cellAt_eq (hdr row : List Str) (name : Str) (i : Nat) (hclean : hdr.map stripBom = hdr) (hnd : hdr.Nodup)
+    (hi : hdr[i]? = some name) : cellAt hdr row name = row[i]? := by
+  rw [cellAt_def, headerIndex_eq hdr name i (by rw [hclean]; exact hnd) (by rw [hclean]; exact hi)]
+  rfl
+
+/-! #### `eraseDups` -/
+
+theorem nodup_eraseDups {α} [BEq α] [LawfulBEq α] : ∀ l : List α, l.eraseDups.Nodup
+  | [] => by simp
+  | a :: as => by
+    have : (as.filter fun b => !b == a).length < as.length + 1 :=
+      Nat.lt_succ_of_le (List.length_filter_le _ as)
+    rw [List.eraseDups_cons, List.nodup_cons]
+    refine ⟨?_, nodup_eraseDups _⟩
+    rw [List.mem_eraseDups, List.mem_filter]
+    simp
+termination_by l => l.length
+
+theorem eraseDups_of_nodup {α} [BEq α] [LawfulBEq α] : ∀ {l : List α}, l.Nodup → l.eraseDups = l
+  | [], _ => by simp
+  | a :: as, h => by
+    rw [List.nodup_cons] at h
+    rw [List.eraseDups_cons]
+    have : as.filter (fun b => !b == a) = as := by
+      rw [List.filter_eq_self]; intro b hb; simp; intro e; subst e; exact h.1 hb
+    rw [this, eraseDups_of_nodup h.2]
+
+theorem eraseDups_append_of_subset {α} [BEq α] [LawfulBEq α] {l m : List α} (hl : l.Nodup) (hm : ∀ x ∈ m, x ∈ l) :
+    (l ++ m).eraseDups = l := by
+  rw [List.eraseDups_append, eraseDups_of_nodup hl]
+  have : m.removeAll l = [] := by
+    simp only [List.removeAll, List.filter_eq_nil_iff]
+    intro a ha; simpa using hm a ha
+  rw [this]; simp
+
+/-! #### small facts about cells -/
+
+theorem mapM_map_some {α β γ} (h : α → β) (f : β → Option γ) (g : α → γ) :
+    ∀ l : List α, (∀ a ∈ l, f (h a) = some (g a)) → (l.map h).mapM f = some (l.map g)
+  | [], _ => by simp
+  | a :: as, H => by
+    have ih := mapM_map_some h f g as (fun x hx => H x (by simp [hx]))
+    simp [List.mapM_cons, H a (by simp), ih]
+
+theorem nonEmpty_orEmpty (x : Option Str) : nonEmpty (orEmpty x) = x.bind nonEmpty := by
+  cases x with
+  | none => simp [orEmpty, nonEmpty]
+  | some s => simp [orEmpty]
+
+theorem nonEmpty_orEmpty_of_ne {x : Option Str} (h : x ≠ some []) : nonEmpty (orEmpty x) = x := by
+  cases x with
+  | none => simp [orEmpty, nonEmpty]
+  | some s =>
+    have : s ≠ [] := fun e => h (by rw [e])
+    simp [orEmpty, nonEmpty, this]
+
+theorem orEmpty_nonEmpty (s : Str) : orEmpty (nonEmpty s) = s := by
+  cases s <;> simp [orEmpty, nonEmpty]
+
+theorem milestone_cell (b : Bool) : ((if b then "True".toList else "False".toList) == "True".toList) = b := by
+  cases b <;> decide
+
+/-! #### `splitOn` undoes `joinWith` -/
+
+def splitStep (sep : Char) (c : Char) (acc : List Str) : List Str :=
+  if c == sep then [] :: acc else match acc with
+    | [] => [[c]]
+    | x :: xs => (c :: x) :: xs
+
+theorem splitOn_def (sep : Char) (s : Str) : splitOn sep s = s.foldr (splitStep sep) [[]] := rfl
+
+theorem splitOn_step_noSep (sep : Char) : ∀ (x : Str) (y : Str) (ys : List Str), sep ∉ x →
+    x.foldr (splitStep sep) (y :: ys) = (x ++ y) :: ys
+  | [], _, _, _ => rfl
+  | c :: cs, y, ys, h => by
+    simp only [List.mem_cons, not_or] at h
+    have hc : (c == sep) = false := by simp; exact fun e => h.1 e.symm
+    rw [List.foldr_cons, splitOn_step_noSep sep cs y ys h.2]
+    simp [splitStep, hc]
+
+theorem splitOn_joinWith (sep : Char) : ∀ l : List Str, l ≠ [] → (∀ x ∈ l, sep ∉ x) →
+    splitOn sep (joinWith sep l) = l
+  | [], h, _ => absurd rfl h
+  | [x], _, hx => by
+    rw [joinWith, splitOn_def, splitOn_step_noSep sep x [] [] (hx x (by simp))]; simp
+  | x :: y :: l, _, hx => by
+    have ih := splitOn_joinWith sep (y :: l) (by simp) (fun z hz => hx z (by simp [hz]))
+    have : joinWith sep (x :: y :: l) = x ++ sep :: joinWith sep (y :: l) := by simp [joinWith]
+    rw [this]
+    rw [splitOn_def] at ih ⊢
+    rw [List.foldr_append, List.foldr_cons, ih]
+    have : splitStep sep sep (y :: l) = [] :: y :: l := by simp [splitStep]
+    rw [this, splitOn_step_noSep sep x [] _ (hx x (by simp))]; simp
+
+theorem joinWith_eq_nil {sep : Char} : ∀ {l : List Str}, (∀ x ∈ l, x ≠ []) → joinWith sep l = [] → l = []
+  | [], _, _ => rfl
+  | [x], h, e => by simp [joinWith] at e; exact absurd e (h x (by simp))
+  | x :: y :: l, h, e => by
+    have : joinWith sep (x :: y :: l) = x ++ sep :: joinWith sep (y :: l) := by simp [joinWith]
+    rw [this] at e; simp at e
+
+theorem preds_cell (l : List Str) (h : ∀ p ∈ l, p ≠ [] ∧ ';' ∉ p) :
+    (if (joinWith ';' l).isEmpty then [] else splitOn ';' (joinWith ';' l)) = l := by
+  by_cases hl : l = []
+  · subst hl; simp [joinWith]
+  · have : (joinWith ';' l).isEmpty = false := by
+      cases hj : (joinWith ';' l).isEmpty with
+      | false => rfl
+      | true => exact absurd (joinWith_eq_nil (fun x hx => (h x hx).1) (List.isEmpty_iff.mp hj)) hl
+    rw [this]
+    simpa using splitOn_joinWith ';' l hl (fun x hx => (h x hx).2)
+
+/-! #### the header written by `writeCsv` -/
+
+/-- custom columns the writer can handle: distinct, no clash with the standard names, no byte-order mark -/
+def GoodCols (cols : List Str) : Prop := cols.Nodup ∧ ∀ c ∈ cols, c ∉ defaultFields ∧ '﻿' ∉ c
+
+theorem stripBom_of_notMem {c : Str} (h : '﻿' ∉ c) : stripBom c = c := by
+  unfold stripBom
+  rw [List.filter_eq_self]
+  intro a ha
+  simp only [bne_iff_ne, ne_eq]
+  intro e; subst e; exact h ha
+
+theorem hdr_clean {cols : List Str} (h : GoodCols cols) :
+    (defaultFields ++ cols).map stripBom = defaultFields ++ cols := by
+  rw [List.map_append]
+  have h1 : defaultFields.map stripBom = defaultFields := by decide
+  have h2 : cols.map stripBom = cols := by
+    conv => rhs; rw [← List.map_id cols]
+    exact List.map_congr_left (fun c hc => stripBom_of_notMem (h.2 c hc).2)
+  rw [h1, h2]
+
+theorem hdr_nodup {cols : List Str} (h : GoodCols cols) : (defaultFields ++ cols).Nodup := by
+  rw [List.nodup_append]
+  refine ⟨by decide, h.1, ?_⟩
+  intro a ha b hb e
+  subst e
+  exact (h.2 a hb).1 ha
+
+theorem hdr_customs {cols : List Str} (h : GoodCols cols) :
+    (((defaultFields ++ cols).map stripBom).eraseDups.filter (fun c => !defaultFields.contains c)) = cols := by
+  rw [hdr_clean h, eraseDups_of_nodup (hdr_nodup h), List.filter_append]
+  have h1 : defaultFields.filter (fun c => !defaultFields.contains c) = [] := by decide
+  have h2 : cols.filter (fun c => !defaultFields.contains c) = cols := by
+    rw [List.filter_eq_self]; intro c hc; simpa using (h.2 c hc).1
+  rw [h1, h2]; rfl
+
+theorem cellAt_custom {cols : List Str} (h : GoodCols cols) (r : Rec) (c : Str) (hc : c ∈ cols) :
+    cellAt (defaultFields ++ cols) (rowCells cols r) c = some (customCell r c) := by
+  obtain ⟨j, hj⟩ := List.mem_iff_getElem?.mp hc
+  have hlen : defaultFields.length = 10 := by decide
+  rw [cellAt_eq _ _ c (10 + j) (hdr_clean h) (hdr_nodup h)
+    (by rw [List.getElem?_append_right (by omega), hlen]; simpa using hj)]
+  unfold rowCells
+  rw [List.getElem?_append_right (by simp)]
+  simp [hj]
+
+theorem cellAt_std {cols : List Str} (h : GoodCols cols) (r : Rec) (i : Nat) (name v : Str)
+    (h1 : (defaultFields ++ cols)[i]? = some name) (h2 : (rowCells cols r)[i]? = some v) :
+    cellAt (defaultFields ++ cols) (rowCells cols r) name = some v := by
+  rw [cellAt_eq _ _ name i (hdr_clean h) (hdr_nodup h) h1, h2]
+
+/-- a written row read back under the written header -/
+theorem readRow_rowCells {cols : List Str} (h : GoodCols cols) (r : Rec) :
+    readRow (defaultFields ++ cols) (rowCells cols r) = some
+      { id := r.id, name := r.name.bind nonEmpty, resource := r.resource.bind nonEmpty,
+        start := r.start.bind nonEmpty, end_ := r.end_.bind nonEmpty, estimate := r.estimate.bind nonEmpty,
+        spent := r.spent.bind nonEmpty, milestone := r.milestone, parentId := r.parentId.bind nonEmpty,
+        predIds := if (joinWith ';' r.predIds).isEmpty then [] else splitOn ';' (joinWith ';' r.predIds),
+        custom := cols.map (fun c => (c, nonEmpty (customCell r c))) } := by
+  rw [readRow_def, hdr_customs h,
+    cellAt_std h r 0 _ r.id rfl rfl,
+    cellAt_std h r 1 _ (orEmpty r.name) rfl rfl,
+    cellAt_std h r 2 _ (orEmpty r.resource) rfl rfl,
+    cellAt_std h r 3 _ (orEmpty r.start) rfl rfl,
+    cellAt_std h r 4 _ (orEmpty r.end_) rfl rfl,
+    cellAt_std h r 5 _ (orEmpty r.estimate) rfl rfl,
+    cellAt_std h r 6 _ (orEmpty r.spent) rfl rfl,
+    cellAt_std h r 7 _ (if r.milestone then "True".toList else "False".toList) rfl rfl,
+    cellAt_std h r 8 _ (orEmpty r.parentId) rfl rfl,
+    cellAt_std h r 9 _ (joinWith ';' r.predIds) rfl rfl]
+  have hm : cols.mapM (fun c => (cellAt (defaultFields ++ cols) (rowCells cols r) c).map (fun v => (c, nonEmpty v))) =
+      some (cols.map (fun c => (c, nonEmpty (customCell r c)))) := by
+    have := mapM_map_some (fun c : Str => c)
+      (fun c => (cellAt (defaultFields ++ cols) (rowCells cols r) c).map (fun v => (c, nonEmpty v)))
+      (fun c => (c, nonEmpty (customCell r c))) cols (fun c hc => by rw [cellAt_custom h r c hc]; rfl)
+    simpa using this
+  rw [hm]
+  simp only [Option.bind_some, nonEmpty_orEmpty, milestone_cell]
+
+theorem bind_nonEmpty_of_ne {x : Option Str} (h : x ≠ some []) : x.bind nonEmpty = x := by
+  rw [← nonEmpty_orEmpty, nonEmpty_orEmpty_of_ne h]
+
+theorem readRow_rowCells_normalise {cols : List Str} (h : GoodCols cols) (r : Rec)
+    (hs : r.start ≠ some []) (he : r.end_ ≠ some []) (hest : r.estimate ≠ some []) (hsp : r.spent ≠ some [])
+    (hpid : r.parentId ≠ some []) (hp : ∀ p ∈ r.predIds, p ≠ [] ∧ ';' ∉ p) :
+    readRow (defaultFields ++ cols) (rowCells cols r) = some (normalise cols r) := by
+  rw [readRow_rowCells h, preds_cell _ hp, bind_nonEmpty_of_ne hs, bind_nonEmpty_of_ne he, bind_nonEmpty_of_ne hest,
+    bind_nonEmpty_of_ne hsp, bind_nonEmpty_of_ne hpid]
+  rfl
+
+/-- the whole file: if every row is read back as `g r`, the file is read back as `recs.map g` -/
+theorem readCsv_writeCsv (recs : List Rec) (g : Rec → Rec)
+    (H : ∀ r ∈ recs, readRow (defaultFields ++ customColumns recs) (rowCells (customColumns recs) r) = some (g r)) :
+    readCsv (writeCsv recs) = some (recs.map g) := by
+  unfold readCsv writeCsv
+  rw [parse_encodeFile]
+  simp only [fileRows]
+  exact mapM_map_some _ _ _ recs H
+
+theorem goodCols_customColumns (recs : List Rec)
+    (H : ∀ r ∈ recs, ∀ c ∈ r.custom.map (·.1), c ∉ defaultFields ∧ '﻿' ∉ c) : GoodCols (customColumns recs) := by
+  refine ⟨nodup_eraseDups _, ?_⟩
+  intro c hc
+  simp only [customColumns, List.mem_eraseDups, List.mem_flatMap] at hc
+  obtain ⟨r, hr, hc⟩ := hc
+  exact H r hr c hc
+
+/-! #### a second round trip -/
+
+theorem find?_map_pair {β} (g : Str → β) (c : Str) : ∀ cols : List Str, c ∈ cols →
+    (cols.map (fun c' => (c', g c'))).find? (fun p => p.1 == c) = some (c, g c)
+  | [], h => by cases h
+  | d :: ds, h => by
+    by_cases hd : d = c
+    · subst hd; simp
+    · have : c ∈ ds := by
+        cases h with
+        | head => exact absurd rfl hd
+        | tail _ h => exact h
+      have ih := find?_map_pair g c ds this
+      simp only [List.map_cons, List.find?_cons]
+      have : (d == c) = false := by simpa using hd
+      simp only [this]
+      exact ih
+
+theorem customCell_normalise (cols : List Str) (r : Rec) (c : Str) (hc : c ∈ cols) :
+    customCell (normalise cols r) c = customCell r c := by
+  have h1 : (normalise cols r).custom.find? (fun p => p.1 == c) = some (c, nonEmpty (customCell r c)) :=
+    find?_map_pair (fun c => nonEmpty (customCell r c)) c cols hc
+  have h2 : customCell (normalise cols r) c = orEmpty (nonEmpty (customCell r c)) := by
+    show (match (normalise cols r).custom.find? (fun p => p.1 == c) with
+      | some p => orEmpty p.2
+      | none => []) = _
+    rw [h1]
+  rw [h2, orEmpty_nonEmpty]
+
+theorem bind_nonEmpty_idem (x : Option Str) : (x.bind nonEmpty).bind nonEmpty = x.bind nonEmpty := by
+  cases x with
+  | none => rfl
+  | some s => cases s <;> simp [nonEmpty]
+
+theorem normalise_idem (cols : List Str) (r : Rec) : normalise cols (normalise cols r) = normalise cols r := by
+  have : cols.map (fun c => (c, nonEmpty (customCell (normalise cols r) c))) =
+      cols.map (fun c => (c, nonEmpty (customCell r c))) :=
+    List.map_congr_left (fun c hc => by rw [customCell_normalise cols r c hc])
+  unfold normalise at this ⊢
+  simp only [bind_nonEmpty_idem, this]
+
+theorem custom_names_normalise (cols : List Str) (r : Rec) : (normalise cols r).custom.map (·.1) = cols := by
+  simp [normalise, List.map_map, Function.comp_def]
+
+theorem customColumns_normalise (cols : List Str) (hc : cols.Nodup) :
+    ∀ recs : List Rec, recs ≠ [] → customColumns (recs.map (normalise cols)) = cols
+  | [], h => absurd rfl h
+  | r :: rs, _ => by
+    unfold customColumns
+    rw [List.map_cons, List.flatMap_cons, custom_names_normalise]
+    apply eraseDups_append_of_subset hc
+    intro x hx
+    obtain ⟨r', hr', hx⟩ := List.mem_flatMap.mp hx
+    obtain ⟨r'', _, rfl⟩ := List.mem_map.mp hr'
+    rw [custom_names_normalise] at hx
+    exact hx
+
+/-! #### byte-order mark -/
+
+theorem stripBom_bom (h : Str) : stripBom ('﻿' :: h) = stripBom h := by
+  simp [stripBom]
+
+theorem headerIndex_bom (hdr : List Str) (h0 name : Str) :
+    headerIndex (('﻿' :: h0) :: hdr) name = headerIndex (h0 :: hdr) name := by
+  rw [headerIndex_def, headerIndex_def, List.map_cons, List.map_cons, stripBom_bom]
+
+theorem cellAt_bom (hdr : List Str) (h0 : Str) (row : List Str) (name : Str) :
+    cellAt (('﻿' :: h0) :: hdr) row name = cellAt (h0 :: hdr) row name := by
+  rw [cellAt_def, cellAt_def, headerIndex_bom]
+
+theorem readRow_bom (hdr : List Str) (h0 : Str) (row : List Str) :
+    readRow (('﻿' :: h0) :: hdr) row = readRow (h0 :: hdr) row := by
+  rw [readRow_def, readRow_def]
+  simp only [cellAt_bom, List.map_cons, stripBom_bom]
+
+/-! ### structure layer -/
+
+def Tree.rootId : Tree → Str
+  | .node id _ => id
+
+/-- rows whose parent is `x` -/
+abbrev kidsOf (x : Str) (R : List (Str × Option Str)) : List (Str × Option Str) := R.filter (fun r => r.2 == some x)
+
+theorem rowsList_cons (p : Option Str) (t : Tree) (ts : List Tree) :
+    Tree.rowsList p (t :: ts) = Tree.rows p t ++ Tree.rowsList p ts := by simp [Tree.rowsList]
+theorem rows_node (p : Option Str) (id : Str) (ch : List Tree) :
+    Tree.rows p (.node id ch) = (id, p) :: Tree.rowsList (some id) ch := by simp [Tree.rows]
+
+mutual
+  /-- a tree that does not contain the id `x` contributes at most its root row to the rows with parent `x` -/
+  theorem kidsOf_rows_notMem (x : Str) : ∀ (t : Tree) (p : Option Str), x ∉ (Tree.rows p t).map (·.1) →
+      kidsOf x (Tree.rows p t) = if p == some x then [(t.rootId, p)] else []
+    | .node id ch, p, h => by
+      rw [rows_node] at h ⊢
+      simp only [List.map_cons, List.mem_cons, not_or] at h
+      have ih := kidsOf_rowsList_notMem x ch (some id) h.2
+      have hne : (some id == some x) = false := by
+        simp only [beq_eq_false_iff_ne, ne_eq, Option.some.injEq]; exact fun e => h.1 e.symm
+      rw [hne] at ih
+      simp only [kidsOf, List.filter_cons] at ih ⊢
+      rw [ih]
+      by_cases hp : p == some x <;> simp [hp, Tree.rootId]
+  theorem kidsOf_rowsList_notMem (x : Str) : ∀ (ts : List Tree) (p : Option Str),
+      x ∉ (Tree.rowsList p ts).map (·.1) →
+      kidsOf x (Tree.rowsList p ts) = if p == some x then ts.map (fun c => (c.rootId, p)) else []
+    | [], p, _ => by simp [Tree.rowsList]
+    | t :: ts, p, h => by
+      rw [rowsList_cons] at h ⊢
+      simp only [List.map_append, List.mem_append, not_or] at h
+      have h1 := kidsOf_rows_notMem x t p h.1
+      have h2 := kidsOf_rowsList_notMem x ts p h.2
+      simp only [kidsOf, List.filter_append] at h1 h2 ⊢
+      rw [h1, h2]
+      by_cases hp : p == some x <;> simp [hp]
+end
+
+theorem rows_ne_nil (p : Option Str) : ∀ t : Tree, Tree.rows p t ≠ []
+  | .node id ch => by simp [rows_node]
+
+theorem rowsList_eq_nil {p : Option Str} : ∀ {ts : List Tree}, Tree.rowsList p ts = [] → ts = []
+  | [], _ => rfl
+  | t :: ts, h => by
+    rw [rowsList_cons] at h
+    exact absurd (List.append_eq_nil_iff.mp h).1 (rows_ne_nil p t)
+
+theorem buildTree_succ (R : List (Str × Option Str)) (f : Nat) (id : Str) :
+    buildTree R (f + 1) id = .node id ((kidsOf id R).map (fun r => buildTree R f r.1)) := by
+  simp [buildTree, kidsOf]
+
+mutual
+  theorem buildTree_rows (R : List (Str × Option Str)) : ∀ (t : Tree) (p : Option Str) (fuel : Nat),
+      ((Tree.rows p t).map (·.1)).Nodup → (∀ x, p = some x → x ∉ (Tree.rows p t).map (·.1)) →
+      (∀ x ∈ (Tree.rows p t).map (·.1), kidsOf x R = kidsOf x (Tree.rows p t)) →
+      (Tree.rows p t).length ≤ fuel + 1 → buildTree R fuel t.rootId = t
+    | .node id ch, p, fuel, hnd, hp, hk, hlen => by
+      rw [rows_node] at hnd hp hk hlen
+      simp only [List.map_cons, List.nodup_cons] at hnd
+      simp only [List.length_cons, Nat.add_le_add_iff_right] at hlen
+      have hpid : (p == some id) = false := by
+        simp only [beq_eq_false_iff_ne, ne_eq]; intro e; exact hp id e (by simp)
+      cases fuel with
+      | zero =>
+        have : ch = [] := rowsList_eq_nil (List.eq_nil_of_length_eq_zero (Nat.le_zero.mp hlen))
+        subst this; simp [buildTree, Tree.rootId]
+      | succ f =>
+        have hkid : kidsOf id R = ch.map (fun c => (c.rootId, some id)) := by
+          rw [hk id (by simp)]
+          have := kidsOf_rowsList_notMem id ch (some id) hnd.1
+          simp only [kidsOf, List.filter_cons] at this ⊢
+          simp [hpid, this]
+        have ih := buildTree_rowsList R ch (some id) f hnd.2
+          (by intro x hx; cases hx; exact hnd.1)
+          (by
+            intro x hx
+            have hpx : (p == some x) = false := by
+              simp only [beq_eq_false_iff_ne, ne_eq]; intro e; exact hp x e (by simp [hx])
+            rw [hk x (by simp [hx])]
+            simp [kidsOf, hpx])
+          hlen
+        simp only [Tree.rootId]
+        rw [buildTree_succ, hkid, List.map_map]
+        exact congrArg _ ih
+  theorem buildTree_rowsList (R : List (Str × Option Str)) : ∀ (ts : List Tree) (p : Option Str) (fuel : Nat),
+      ((Tree.rowsList p ts).map (·.1)).Nodup → (∀ x, p = some x → x ∉ (Tree.rowsList p ts).map (·.1)) →
+      (∀ x ∈ (Tree.rowsList p ts).map (·.1), kidsOf x R = kidsOf x (Tree.rowsList p ts)) →
+      (Tree.rowsList p ts).length ≤ fuel + 1 → ts.map (fun c => buildTree R fuel c.rootId) = ts
+    | [], _, _, _, _, _, _ => rfl
+    | t :: ts, p, fuel, hnd, hp, hk, hlen => by
+      rw [rowsList_cons] at hnd hp hk hlen
+      simp only [List.map_append, List.nodup_append] at hnd
+      obtain ⟨hnd1, hnd2, hdisj⟩ := hnd
+      simp only [List.length_append] at hlen
+      have h1 := buildTree_rows R t p fuel hnd1
+        (fun x hx hm => hp x hx (by simp only [List.map_append, List.mem_append]; exact Or.inl hm))
+        (by
+          intro x hx
+          have hpx : (p == some x) = false := by
+            simp only [beq_eq_false_iff_ne, ne_eq]; intro e
+            exact hp x e (by simp only [List.map_append, List.mem_append]; exact Or.inl hx)
+          have hnot : x ∉ (Tree.rowsList p ts).map (·.1) := fun hm => hdisj x hx x hm rfl
+          rw [hk x (by simp only [List.map_append, List.mem_append]; exact Or.inl hx)]
+          have := kidsOf_rowsList_notMem x ts p hnot
+          simp only [kidsOf, List.filter_append] at this ⊢
+          rw [this, hpx]; simp)
+        (by omega)
+      have h2 := buildTree_rowsList R ts p fuel hnd2
+        (fun x hx hm => hp x hx (by simp only [List.map_append, List.mem_append]; exact Or.inr hm))
+        (by
+          intro x hx
+          have hpx : (p == some x) = false := by
+            simp only [beq_eq_false_iff_ne, ne_eq]; intro e
+            exact hp x e (by simp only [List.map_append, List.mem_append]; exact Or.inr hx)
+          have hnot : x ∉ (Tree.rows p t).map (·.1) := fun hm => hdisj x hm x hx rfl
+          rw [hk x (by simp only [List.map_append, List.mem_append]; exact Or.inr hx)]
+          have := kidsOf_rows_notMem x t p hnot
+          simp only [kidsOf, List.filter_append] at this ⊢
+          rw [this, hpx]; simp)
+        (by omega)
+      rw [List.map_cons, h1, h2]
+end
+
+/-- the root filter of `rebuildForest` -/
+abbrev isRootRow (K : List Str) (r : Str × Option Str) : Bool :=
+  match r.2 with | none => true | some p => !K.contains p
+
+mutual
+  theorem roots_rows (K : List Str) : ∀ (t : Tree) (p : Option Str), (∀ x ∈ (Tree.rows p t).map (·.1), x ∈ K) →
+      (Tree.rows p t).filter (isRootRow K) = if isRootRow K (t.rootId, p) then [(t.rootId, p)] else []
+    | .node id ch, p, h => by
+      rw [rows_node] at h ⊢
+      have ih := roots_rowsList K ch (some id) (fun x hx => h x (by simp at hx ⊢; exact Or.inr hx)) id
+      have hid : id ∈ K := h id (by simp)
+      have : isRootRow K (id, some id) = false := by simp [isRootRow, hid]
+      rw [this] at ih
+      rw [List.filter_cons, ih]
+      simp [Tree.rootId, isRootRow]
+  theorem roots_rowsList (K : List Str) : ∀ (ts : List Tree) (p : Option Str),
+      (∀ x ∈ (Tree.rowsList p ts).map (·.1), x ∈ K) → ∀ d : Str,
+      (Tree.rowsList p ts).filter (isRootRow K) = if isRootRow K (d, p) then ts.map (fun c => (c.rootId, p)) else []
+    | [], p, _, d => by simp [Tree.rowsList]
+    | t :: ts, p, h, d => by
+      rw [rowsList_cons] at h ⊢
+      have h1 := roots_rows K t p (fun x hx => h x (by simp at hx ⊢; exact Or.inl hx))
+      have h2 := roots_rowsList K ts p (fun x hx => h x (by simp at hx ⊢; exact Or.inr hx)) d
+      rw [List.filter_append, h1, h2]
+      have : isRootRow K (t.rootId, p) = isRootRow K (d, p) := rfl
+      rw [this]
+      split <;> simp
+end
+
+theorem rebuildForest_rows (f : List Tree) (hn : ((Tree.rowsList none f).map (·.1)).Nodup) :
+    rebuildForest (Tree.rowsList none f) = f := by
+  have h := roots_rowsList ((Tree.rowsList none f).map (·.1)) f none (fun _ hx => hx) []
+  rw [if_pos rfl] at h
+  rw [show rebuildForest (Tree.rowsList none f) =
+      List.map (fun r => buildTree (Tree.rowsList none f) (Tree.rowsList none f).length r.1)
+        ((Tree.rowsList none f).filter (isRootRow ((Tree.rowsList none f).map (·.1)))) from rfl, h, List.map_map]
+  exact buildTree_rowsList _ f none _ hn (fun x hx => by cases hx) (fun _ _ => rfl) (Nat.le_succ _)
+
 end Pj.Csv
